@@ -112,9 +112,30 @@ def dump_histories(db, rng: random.Random, wd, tier: str):
     for txt in (("plain", "ascii", "text"), ("wórld", "Café del Mar", "x"), ("漢字", "Γειά", "\U0001F6A4")):
         p = cfginfo(*txt)
         lines.append(corpus.basic_string(126998, p, src=6))
+    # several definitions of one PGN number (ISO transport protocol 60416: RTS, CTS, EOM, BAM, abort), each sent
+    # more than once and in varying order: a filter by id selects one definition, not the number
+    multi = [d for d in db["defs"] if d["pgn"] == 60416]
+    multi_ids = []
+    probe = NMEA2000Decoder()
+    for rep in range(3):
+        for d in (multi if rep != 1 else multi[::-1]):
+            ln = corpus.basic_string(60416, corpus.build_payload(d, {}, rng if rep else None), src=7 + rep)
+            try:
+                m = probe.decode_basic_string(ln, already_combined=True)
+            except Exception:              # noqa: BLE001
+                m = None
+            if m is not None and m.id == d["id"]:
+                lines.append(ln)
+                multi_ids.append(d["id"])
+    multi_ids = sorted(set(multi_ids))
     rng.shuffle(lines)
     filters = [([], []), ([127250], []), ([], ["windData"]), ([], ["furunoHeave"]), ([130306], ["configurationInformation"]),
-               ([65280, 126998], []), ([], ["vesselHeading", "configurationInformation"]), ([1], ["noSuchId"])]
+               ([65280, 126998], []), ([], ["vesselHeading", "configurationInformation"]), ([1], ["noSuchId"]),
+               ([60416], [])]
+    filters += [([], [i]) for i in multi_ids] + [([127250], [multi_ids[-1]]), ([], multi_ids[:2] + ["windData"])]
+    all_ids = ["vesselHeading", "windData", "furunoHeave", "configurationInformation"] + multi_ids
+    for _ in range({"quick": 6, "thorough": 40, "selftest": 0}[tier]):
+        filters.append((rng.sample([127250, 130306, 65280, 126998, 60416], rng.randint(0, 2)), rng.sample(all_ids, rng.randint(1, 3))))
     recs, meta = [], []
     for n, (nums, ids) in enumerate(filters):
         path = wd / f"dump{n}" / "out.jsonl"
